@@ -13,24 +13,19 @@ theorem fix32_of_length (b : Bytes) (h : b.length = 32) : fix32 b = b := by
   unfold fix32
   rw [List.take_append_of_le_length (by omega), List.take_of_length_le (by omega)]
 
-/-- With the guard (proposed fix) UnitFromProto never panics. -/
+/-- With the guard (a0ebef4) UnitFromProto never panics. -/
 theorem unitFromProto_total (pu : ProtoUnit) : unitFromProto true pu ≠ .panic := by
   unfold unitFromProto
   cases hs : pu.shards with
   | nil => simp
   | cons s0 rest =>
-    simp only
+    simp only [if_true]
     split
     · simp
-    · split
-      · simp
-      · rename_i h1 h2
-        have : pu.merkleRoot.length = 32 := by
-          simp only [Bool.true_and, bne_iff_ne, ne_eq, Decidable.not_not] at h2; exact h2
-        simp [this]
+    · split <;> simp
 
-/-- The pinned UnitFromProto panics exactly on a unit without shards, or on one that passes the
-shard-length loop and has a Merkle root shorter than 32 bytes. -/
+/-- UnitFromProto before a0ebef4 panicked exactly on a unit without shards, or on one that passes
+the shard-length loop and has a Merkle root shorter than 32 bytes. -/
 theorem unitFromProto_pinned_panic_iff (pu : ProtoUnit) :
     unitFromProto false pu = .panic ↔
       (pu.shards = [] ∨
@@ -40,7 +35,7 @@ theorem unitFromProto_pinned_panic_iff (pu : ProtoUnit) :
   cases hs : pu.shards with
   | nil => simp
   | cons s0 rest =>
-    simp only [List.headD_cons, Bool.false_and, Bool.false_eq_true, if_false]
+    simp only [List.headD_cons, Bool.false_eq_true, if_false]
     by_cases h1 : ((s0 :: rest).take ((s0 :: rest).length - 1)).any (fun s => s.length != s0.length) = true
     · rw [if_pos h1]
       constructor
@@ -60,6 +55,19 @@ theorem unitFromProto_pinned_panic_iff (pu : ProtoUnit) :
         · rintro (h | ⟨_, h⟩)
           · cases h
           · exact absurd h h2
+
+/-- The error UnitFromProto (since a0ebef4) returns, in the order the code checks: no shards, then
+the root length, then the shard lengths. -/
+theorem unitFromProto_guard_errors (pu : ProtoUnit) :
+    (pu.shards = [] → unitFromProto true pu = .err .noShards) ∧
+    (pu.shards ≠ [] → pu.merkleRoot.length ≠ 32 → unitFromProto true pu = .err .rootLen) := by
+  unfold unitFromProto
+  constructor
+  · intro h; simp [h]
+  · intro h1 h2
+    cases hs : pu.shards with
+    | nil => exact absurd hs h1
+    | cons s0 rest => simp [h2]
 
 /-- A unit as the protocol makes them: at least one shard, all of one length, 32-byte hashes and
 committee id, index and nonce in their integer ranges. -/
@@ -94,43 +102,63 @@ theorem unitFromProto_toProto (guard : Bool) (u : PUnit Bytes) (h : WireOk u) :
       have := h2 x (by rw [hs]; exact List.mem_of_mem_take hx)
       rw [hs] at this
       simp at this ⊢; exact this
-    rw [if_neg (by rw [hany]; simp)]
-    have hg : (guard && (u.root.length != 32)) = false := by simp [h3]
-    rw [if_neg (by rw [hg]; simp), if_neg (by omega)]
-    congr 1
-    cases u with
-    | mk committee publisher root proof sig index shards nonce =>
-      simp only at hs h3 h4 h5 h6 h7 ⊢
-      subst hs
-      rw [fix32_of_length committee h5, List.take_of_length_le (by omega), map_fix32_id proof h4,
-        Nat.mod_eq_of_lt h6, Nat.mod_eq_of_lt h7]
+    have hroot : (u.root.length != 32) = false := by simp [h3]
+    have hfinal : (⟨fix32 u.committee, u.publisher, u.root.take 32, u.proof.map fix32, u.sig,
+        u.index % 2 ^ 32, s0 :: rest, u.nonce % 2 ^ 64⟩ : PUnit Bytes) = u := by
+      cases u with
+      | mk committee publisher root proof sig index shards nonce =>
+        simp only at hs h3 h4 h5 h6 h7 ⊢
+        subst hs
+        rw [fix32_of_length committee h5, List.take_of_length_le (by omega), map_fix32_id proof h4,
+          Nat.mod_eq_of_lt h6, Nat.mod_eq_of_lt h7]
+    cases guard
+    · simp only [Bool.false_eq_true, if_false]
+      rw [if_neg (by rw [hany]; simp), if_neg (by omega), hfinal]
+    · simp only [if_true]
+      rw [if_neg (by rw [hroot]; simp), if_neg (by rw [hany]; simp), hfinal]
 
 /-- What UnitFromProto lets through always carries at least one shard and a 32-byte root (so
 `units[i].ShardData[0]` in ConstructMessageFromUnits cannot fail on a parsed unit). -/
 theorem unitFromProto_ok_shape (guard : Bool) (pu : ProtoUnit) (u : PUnit Bytes)
     (h : unitFromProto guard pu = .ok u) : u.shards ≠ [] ∧ u.root.length = 32 ∧
       (∀ s ∈ u.proof, s.length = 32) ∧ u.committee.length = 32 ∧ u.index < 2 ^ 32 := by
+  have hfix : ∀ b : Bytes, (fix32 b).length = 32 := by
+    intro b; unfold fix32; simp [List.length_take]
+  have hshape : ∀ s0 rest, pu.shards = s0 :: rest → 32 ≤ pu.merkleRoot.length →
+      u = ⟨fix32 pu.committeeId, pu.publisher, pu.merkleRoot.take 32, pu.siblings.map fix32, pu.signature,
+        pu.index % 2 ^ 32, pu.shards, pu.nonce % 2 ^ 64⟩ →
+      u.shards ≠ [] ∧ u.root.length = 32 ∧ (∀ s ∈ u.proof, s.length = 32) ∧ u.committee.length = 32 ∧
+        u.index < 2 ^ 32 := by
+    intro s0 rest hs hlen hu
+    subst hu
+    refine ⟨by simp [hs], by simp [List.length_take]; omega, ?_, hfix _, Nat.mod_lt _ (by decide)⟩
+    intro s hs'
+    simp only [List.mem_map] at hs'
+    obtain ⟨b, _, rfl⟩ := hs'
+    exact hfix b
   unfold unitFromProto at h
   cases hs : pu.shards with
-  | nil => simp [hs] at h; split at h <;> cases h
+  | nil => simp only [hs] at h; split at h <;> cases h
   | cons s0 rest =>
     simp only [hs] at h
-    split at h
-    · cases h
-    · split at h
+    cases guard
+    · simp only [Bool.false_eq_true, if_false] at h
+      split at h
       · cases h
       · split at h
         · cases h
         · rename_i hlt
           injection h with h
-          subst h
-          have hfix : ∀ b : Bytes, (fix32 b).length = 32 := by
-            intro b; unfold fix32; simp [List.length_take]
-          refine ⟨by simp, by simp [List.length_take]; omega, ?_, hfix _, Nat.mod_lt _ (by decide)⟩
-          intro s hs'
-          simp only [List.mem_map] at hs'
-          obtain ⟨b, _, rfl⟩ := hs'
-          exact hfix b
+          exact hshape s0 rest hs (by omega) (by rw [← h, hs])
+    · simp only [if_true] at h
+      split at h
+      · cases h
+      · rename_i hr
+        split at h
+        · cases h
+        · injection h with h
+          have : pu.merkleRoot.length = 32 := by simpa using hr
+          exact hshape s0 rest hs (by omega) (by rw [← h, hs])
 
 
 /-! ### processor.go: subprocessor and routing -/
@@ -407,10 +435,10 @@ theorem subStep_running_inv [DecidableEq H] (cfg : Cfg) (pc : PCfg) (f : HashFns
 
 /-! ### Processor: invariants over any sequence of units -/
 
-theorem procStep_inv [DecidableEq H] (cfg : Cfg) (pc : PCfg) (f : HashFns H) (rs : RS)
+theorem procStepCore_inv [DecidableEq H] (cfg : Cfg) (pc : PCfg) (f : HashFns H) (rs : RS)
     (sg : SigScheme H) (s : Sched) (p : Proc H) (u : PUnit H) (sender : Bytes)
-    (hp : ProcInv s p) : ProcInv s (procStep cfg pc f rs sg s p u sender).1 := by
-  unfold procStep
+    (hp : ProcInv s p) : ProcInv s (procStepCore cfg pc f rs sg s p u sender).1 := by
+  unfold procStepCore
   by_cases hf : p.finalized.contains (keyOf u) = true
   · simp only [hf, if_true]; exact hp
   · simp only [hf, Bool.false_eq_true, if_false]
@@ -471,16 +499,16 @@ unit and sender — if this step builds a message for a key carrying the publish
 the message built is `msg`, and every unit handed to `broadcastUnit` in this step is either the
 accepted unit itself or the local unit with the publisher's shard and proof for the local index,
 under the same message key. (Ideal hash; codec laws for the scheduler's `(k, c)`.) -/
-theorem procStep_built_sound [DecidableEq H] (cfg : Cfg) (pc : PCfg) (f : HashFns H) (hI : Ideal f)
+theorem procStepCore_built_sound [DecidableEq H] (cfg : Cfg) (pc : PCfg) (f : HashFns H) (hI : Ideal f)
     (rs : RS) (sg : SigScheme H) (s : Sched) (p : Proc H) (hp : ProcInv s p) (u : PUnit H)
     (sender : Bytes) (msg : Bytes) (hl : RSLaws rs s.k s.c) (hin : PadInput msg s.k)
     (hsz : GoSized rs msg s.k s.c) (hroot : u.root = (treeOf cfg f rs msg s.k s.c).1)
     (bc : List (PUnit H)) (m : Bytes) (e : Option Bool)
-    (h : (procStep cfg pc f rs sg s p u sender).2 = .handled bc (some m) e) :
+    (h : (procStepCore cfg pc f rs sg s p u sender).2 = .handled bc (some m) e) :
     m = msg ∧ ∃ li, s.shardIndexFor u.publisher = .ok li ∧
       ∀ lu ∈ bc, lu = u ∨ (lu.shards = [(encOf rs msg s.k s.c).getD li []] ∧
         lu.proof = (treeOf cfg f rs msg s.k s.c).2.getD li [] ∧ lu.index = li ∧ keyOf lu = keyOf u) := by
-  unfold procStep at h
+  unfold procStepCore at h
   by_cases hf : p.finalized.contains (keyOf u) = true
   · rw [if_pos hf] at h; cases h
   · rw [if_neg hf] at h
@@ -529,34 +557,34 @@ theorem procStep_built_sound [DecidableEq H] (cfg : Cfg) (pc : PCfg) (f : HashFn
         rw [hk0]; exact (hunits u0 hu0).1
 
 /-- Outcomes of a sequence of `(unit, sender)` pairs handed to the processor. -/
-def procRun [DecidableEq H] (cfg : Cfg) (pc : PCfg) (f : HashFns H) (rs : RS) (sg : SigScheme H)
+def procRunCore [DecidableEq H] (cfg : Cfg) (pc : PCfg) (f : HashFns H) (rs : RS) (sg : SigScheme H)
     (s : Sched) : Proc H → List (PUnit H × Bytes) → List (ProcOut H)
   | _, [] => []
   | p, (u, sender) :: rest =>
-    (procStep cfg pc f rs sg s p u sender).2 ::
-      procRun cfg pc f rs sg s (procStep cfg pc f rs sg s p u sender).1 rest
+    (procStepCore cfg pc f rs sg s p u sender).2 ::
+      procRunCore cfg pc f rs sg s (procStepCore cfg pc f rs sg s p u sender).1 rest
 
 /-- Safety of the processor over ANY sequence of units (any order, duplicates, forged units
 interleaved, any senders) starting from the empty processor: a message built for a key that carries
 the publisher's root of `msg` is `msg`. -/
-theorem procRun_built_sound [DecidableEq H] (cfg : Cfg) (pc : PCfg) (f : HashFns H) (hI : Ideal f)
+theorem procRunCore_built_sound [DecidableEq H] (cfg : Cfg) (pc : PCfg) (f : HashFns H) (hI : Ideal f)
     (rs : RS) (sg : SigScheme H) (s : Sched) (msg : Bytes) (hl : RSLaws rs s.k s.c)
     (hin : PadInput msg s.k) (hsz : GoSized rs msg s.k s.c) :
     ∀ (ops : List (PUnit H × Bytes)) (p : Proc H), ProcInv s p →
     ∀ (i : Nat) (u : PUnit H) (sender : Bytes) (bc : List (PUnit H)) (m : Bytes) (e : Option Bool),
       ops[i]? = some (u, sender) → u.root = (treeOf cfg f rs msg s.k s.c).1 →
-      (procRun cfg pc f rs sg s p ops)[i]? = some (.handled bc (some m) e) → m = msg
+      (procRunCore cfg pc f rs sg s p ops)[i]? = some (.handled bc (some m) e) → m = msg
   | [], _, _, i, _, _, _, _, _, h, _, _ => by simp at h
   | (u0, s0) :: rest, p, hp, 0, u, sender, bc, m, e, h, hr, hv => by
     simp only [List.getElem?_cons_zero, Option.some.injEq, Prod.mk.injEq] at h
     obtain ⟨rfl, rfl⟩ := h
-    simp only [procRun, List.getElem?_cons_zero, Option.some.injEq] at hv
-    exact (procStep_built_sound cfg pc f hI rs sg s p hp u0 s0 msg hl hin hsz hr bc m e hv).1
+    simp only [procRunCore, List.getElem?_cons_zero, Option.some.injEq] at hv
+    exact (procStepCore_built_sound cfg pc f hI rs sg s p hp u0 s0 msg hl hin hsz hr bc m e hv).1
   | (u0, s0) :: rest, p, hp, i + 1, u, sender, bc, m, e, h, hr, hv => by
     simp only [List.getElem?_cons_succ] at h
-    simp only [procRun, List.getElem?_cons_succ] at hv
-    exact procRun_built_sound cfg pc f hI rs sg s msg hl hin hsz rest _
-      (procStep_inv cfg pc f rs sg s p u0 s0 hp) i u sender bc m e h hr hv
+    simp only [procRunCore, List.getElem?_cons_succ] at hv
+    exact procRunCore_built_sound cfg pc f hI rs sg s msg hl hin hsz rest _
+      (procStepCore_inv cfg pc f rs sg s p u0 s0 hp) i u sender bc m e h hr hv
 
 
 /-! ### a rejected unit leaves no trace (with the fix); the poisoned key (without it) -/
@@ -564,17 +592,17 @@ theorem procRun_built_sound [DecidableEq H] (cfg : Cfg) (pc : PCfg) (f : HashFns
 /-- Two processor states no later step can tell apart. -/
 def ProcEq [DecidableEq H] (s : Sched) (p p' : Proc H) : Prop :=
   (∀ key, p.finalized.contains key = p'.finalized.contains key) ∧
-  ∀ key, (p.findSub key).getD (SubState.fresh s.total) = (p'.findSub key).getD (SubState.fresh s.total)
+  ∀ key, p.findSub key = p'.findSub key
 
 theorem procEq_refl [DecidableEq H] (s : Sched) (p : Proc H) : ProcEq s p p := ⟨fun _ => rfl, fun _ => rfl⟩
 
-theorem procStep_congr [DecidableEq H] (cfg : Cfg) (pc : PCfg) (f : HashFns H) (rs : RS)
+theorem procStepCore_congr [DecidableEq H] (cfg : Cfg) (pc : PCfg) (f : HashFns H) (rs : RS)
     (sg : SigScheme H) (s : Sched) (p p' : Proc H) (u : PUnit H) (sender : Bytes)
     (h : ProcEq s p p') :
-    (procStep cfg pc f rs sg s p u sender).2 = (procStep cfg pc f rs sg s p' u sender).2 ∧
-    ProcEq s (procStep cfg pc f rs sg s p u sender).1 (procStep cfg pc f rs sg s p' u sender).1 := by
+    (procStepCore cfg pc f rs sg s p u sender).2 = (procStepCore cfg pc f rs sg s p' u sender).2 ∧
+    ProcEq s (procStepCore cfg pc f rs sg s p u sender).1 (procStepCore cfg pc f rs sg s p' u sender).1 := by
   obtain ⟨hf, hs⟩ := h
-  unfold procStep
+  unfold procStepCore
   rw [hf (keyOf u), hs (keyOf u)]
   by_cases hc : p'.finalized.contains (keyOf u) = true
   · simp only [hc, if_true]; exact ⟨trivial, hf, hs⟩
@@ -590,8 +618,7 @@ theorem procStep_congr [DecidableEq H] (cfg : Cfg) (pc : PCfg) (f : HashFns H) (
         by_cases hk : key = keyOf u
         · simp [hk]
         · simp only [hk, if_false]; exact hs key
-      have hdrop : ∀ key, ((p.dropSub (keyOf u)).findSub key).getD (SubState.fresh s.total) =
-          ((p'.dropSub (keyOf u)).findSub key).getD (SubState.fresh s.total) := by
+      have hdrop : ∀ key, (p.dropSub (keyOf u)).findSub key = (p'.dropSub (keyOf u)).findSub key := by
         intro key
         rw [findSub_dropSub, findSub_dropSub]
         by_cases hk : key = keyOf u
@@ -613,73 +640,80 @@ theorem procStep_congr [DecidableEq H] (cfg : Cfg) (pc : PCfg) (f : HashFns H) (
         · exact ⟨rfl, hfin, hdrop⟩
       | panic => exact ⟨rfl, hf, hs⟩
 
-theorem procRun_congr [DecidableEq H] (cfg : Cfg) (pc : PCfg) (f : HashFns H) (rs : RS)
+theorem procRunCore_congr [DecidableEq H] (cfg : Cfg) (pc : PCfg) (f : HashFns H) (rs : RS)
     (sg : SigScheme H) (s : Sched) : ∀ (ops : List (PUnit H × Bytes)) (p p' : Proc H), ProcEq s p p' →
-    procRun cfg pc f rs sg s p ops = procRun cfg pc f rs sg s p' ops
+    procRunCore cfg pc f rs sg s p ops = procRunCore cfg pc f rs sg s p' ops
   | [], _, _, _ => rfl
   | (u, sender) :: rest, p, p', h => by
-    obtain ⟨h1, h2⟩ := procStep_congr cfg pc f rs sg s p p' u sender h
-    simp only [procRun, h1, procRun_congr cfg pc f rs sg s rest _ _ h2]
+    obtain ⟨h1, h2⟩ := procStepCore_congr cfg pc f rs sg s p p' u sender h
+    simp only [procRunCore, h1, procRunCore_congr cfg pc f rs sg s rest _ _ h2]
 
 /-- With the repair (`noPoison`): a unit that the validator of its message key rejects changes
 nothing that any later step can observe — no broadcast, no build, and every later outcome is what
 it would have been without the unit. ("… is rejected and cannot cause … the receiver to fail.") -/
-theorem rejected_unit_is_noop [DecidableEq H] (cfg : Cfg) (pc : PCfg) (hfix : pc.noPoison = true)
+theorem rejected_step_core [DecidableEq H] (cfg : Cfg) (pc : PCfg) (hfix : pc.noPoison = true)
     (f : HashFns H) (rs : RS) (sg : SigScheme H) (s : Sched) (p : Proc H) (hp : ProcInv s p)
     (u : PUnit H) (sender : Bytes) (e : VErr)
     (hrej : validate cfg f sg s (keyOf u).publisher
       ((p.findSub (keyOf u)).getD (SubState.fresh s.total)).v u sender = .error e) :
-    (∀ bc b en, (procStep cfg pc f rs sg s p u sender).2 = .handled bc b en → bc = [] ∧ b = none) ∧
-    (procStep cfg pc f rs sg s p u sender).2 ≠ .panic ∧
-    ∀ ops, procRun cfg pc f rs sg s (procStep cfg pc f rs sg s p u sender).1 ops =
-      procRun cfg pc f rs sg s p ops := by
-  have key : ((procStep cfg pc f rs sg s p u sender).2 = .ignored ∨
-      (procStep cfg pc f rs sg s p u sender).2 = .noRoute ∨
-      ∃ en, (procStep cfg pc f rs sg s p u sender).2 = .handled [] none en) ∧
-      ProcEq s (procStep cfg pc f rs sg s p u sender).1 p := by
-    unfold procStep
-    by_cases hc : p.finalized.contains (keyOf u) = true
-    · simp only [hc, if_true]; exact ⟨Or.inl trivial, procEq_refl s p⟩
-    · simp only [hc, Bool.false_eq_true, if_false]
-      cases hsi : s.shardIndexFor (keyOf u).publisher with
-      | error e => exact ⟨Or.inr (Or.inl rfl), procEq_refl s p⟩
-      | ok li =>
-        simp only
-        cases hfs : p.findSub (keyOf u) with
-        | none =>
-          rw [hfs] at hrej
-          simp only [Option.getD_none] at hrej ⊢
-          have hss : subStep cfg pc f rs sg s (keyOf u).publisher li (SubState.fresh s.total) u sender =
-              .firstInvalid := by
-            unfold subStep
-            simp only [SubState.fresh] at hrej ⊢
-            simp [hrej]
-          rw [hss]
-          simp only [hfix, if_true]
-          refine ⟨Or.inr (Or.inr ⟨_, rfl⟩), fun _ => rfl, fun key' => ?_⟩
-          rw [findSub_dropSub]
-          by_cases hk : key' = keyOf u
-          · simp [hk, hfs]
-          · simp [hk]
-        | some st =>
-          rw [hfs] at hrej
-          simp only [Option.getD_some] at hrej ⊢
-          obtain ⟨_, _, hcnt⟩ := hp _ _ hfs
-          have hss : subStep cfg pc f rs sg s (keyOf u).publisher li st u sender = .running st [] none := by
-            unfold subStep
-            cases hb : st.built with
-            | none =>
-              simp only [hrej]
-              have : ¬ st.count = 0 := by omega
-              simp [this]
-            | some x => simp only [hrej]
-          rw [hss]
-          refine ⟨Or.inr (Or.inr ⟨_, rfl⟩), fun _ => rfl, fun key' => ?_⟩
-          rw [findSub_setSub]
-          by_cases hk : key' = keyOf u
-          · simp [hk, hfs]
-          · simp [hk]
-  refine ⟨?_, ?_, fun ops => procRun_congr cfg pc f rs sg s ops _ _ key.2⟩
+    ((procStepCore cfg pc f rs sg s p u sender).2 = .ignored ∨
+      (procStepCore cfg pc f rs sg s p u sender).2 = .noRoute ∨
+      ∃ en, (procStepCore cfg pc f rs sg s p u sender).2 = .handled [] none en) ∧
+      ProcEq s (procStepCore cfg pc f rs sg s p u sender).1 p := by
+  unfold procStepCore
+  by_cases hc : p.finalized.contains (keyOf u) = true
+  · simp only [hc, if_true]; exact ⟨Or.inl trivial, procEq_refl s p⟩
+  · simp only [hc, Bool.false_eq_true, if_false]
+    cases hsi : s.shardIndexFor (keyOf u).publisher with
+    | error e => exact ⟨Or.inr (Or.inl rfl), procEq_refl s p⟩
+    | ok li =>
+      simp only
+      cases hfs : p.findSub (keyOf u) with
+      | none =>
+        rw [hfs] at hrej
+        simp only [Option.getD_none] at hrej ⊢
+        have hss : subStep cfg pc f rs sg s (keyOf u).publisher li (SubState.fresh s.total) u sender =
+            .firstInvalid := by
+          unfold subStep
+          simp only [SubState.fresh] at hrej ⊢
+          simp [hrej]
+        rw [hss]
+        simp only [hfix, if_true]
+        refine ⟨Or.inr (Or.inr ⟨_, rfl⟩), fun _ => rfl, fun key' => ?_⟩
+        rw [findSub_dropSub]
+        by_cases hk : key' = keyOf u
+        · simp [hk, hfs]
+        · simp [hk]
+      | some st =>
+        rw [hfs] at hrej
+        simp only [Option.getD_some] at hrej ⊢
+        obtain ⟨_, _, hcnt⟩ := hp _ _ hfs
+        have hss : subStep cfg pc f rs sg s (keyOf u).publisher li st u sender = .running st [] none := by
+          unfold subStep
+          cases hb : st.built with
+          | none =>
+            simp only [hrej]
+            have : ¬ st.count = 0 := by omega
+            simp [this]
+          | some x => simp only [hrej]
+        rw [hss]
+        refine ⟨Or.inr (Or.inr ⟨_, rfl⟩), fun _ => rfl, fun key' => ?_⟩
+        rw [findSub_setSub]
+        by_cases hk : key' = keyOf u
+        · simp [hk, hfs]
+        · simp [hk]
+
+theorem rejected_unit_is_noop_core [DecidableEq H] (cfg : Cfg) (pc : PCfg) (hfix : pc.noPoison = true)
+    (f : HashFns H) (rs : RS) (sg : SigScheme H) (s : Sched) (p : Proc H) (hp : ProcInv s p)
+    (u : PUnit H) (sender : Bytes) (e : VErr)
+    (hrej : validate cfg f sg s (keyOf u).publisher
+      ((p.findSub (keyOf u)).getD (SubState.fresh s.total)).v u sender = .error e) :
+    (∀ bc b en, (procStepCore cfg pc f rs sg s p u sender).2 = .handled bc b en → bc = [] ∧ b = none) ∧
+    (procStepCore cfg pc f rs sg s p u sender).2 ≠ .panic ∧
+    ∀ ops, procRunCore cfg pc f rs sg s (procStepCore cfg pc f rs sg s p u sender).1 ops =
+      procRunCore cfg pc f rs sg s p ops := by
+  have key := rejected_step_core cfg pc hfix f rs sg s p hp u sender e hrej
+  refine ⟨?_, ?_, fun ops => procRunCore_congr cfg pc f rs sg s ops _ _ key.2⟩
   · intro bc b en h
     rcases key.1 with h1 | h1 | ⟨en', h1⟩
     · rw [h1] at h; cases h
@@ -690,14 +724,14 @@ theorem rejected_unit_is_noop [DecidableEq H] (cfg : Cfg) (pc : PCfg) (hfix : pc
 
 /-- Without the repair (the pinned processor): a message key whose FIRST unit is rejected is put
 into the finalized cache … -/
-theorem first_invalid_unit_poisons_key [DecidableEq H] (cfg : Cfg) (pc : PCfg) (hpin : pc.noPoison = false)
+theorem first_invalid_unit_poisons_key_core [DecidableEq H] (cfg : Cfg) (pc : PCfg) (hpin : pc.noPoison = false)
     (f : HashFns H) (rs : RS) (sg : SigScheme H) (s : Sched) (p : Proc H) (u : PUnit H) (sender : Bytes)
     (e : VErr) (li : Nat) (hnew : p.findSub (keyOf u) = none)
     (hnf : p.finalized.contains (keyOf u) = false)
     (hsi : s.shardIndexFor (keyOf u).publisher = .ok li)
     (hrej : validate cfg f sg s (keyOf u).publisher VState.fresh u sender = .error e) :
-    (procStep cfg pc f rs sg s p u sender).1.finalized.contains (keyOf u) = true := by
-  unfold procStep
+    (procStepCore cfg pc f rs sg s p u sender).1.finalized.contains (keyOf u) = true := by
+  unfold procStepCore
   simp only [hnf, Bool.false_eq_true, if_false, hsi, hnew, Option.getD_none]
   have hss : subStep cfg pc f rs sg s (keyOf u).publisher li (SubState.fresh s.total) u sender =
       .firstInvalid := by
@@ -709,15 +743,15 @@ theorem first_invalid_unit_poisons_key [DecidableEq H] (cfg : Cfg) (pc : PCfg) (
 
 /-- … and from then on every unit of that message — the honest ones included — is ignored, for
 the rest of the run (the finalized cache only grows within its time-to-live). -/
-theorem finalized_key_ignores_units [DecidableEq H] (cfg : Cfg) (pc : PCfg) (f : HashFns H) (rs : RS)
+theorem finalized_key_ignores_units_core [DecidableEq H] (cfg : Cfg) (pc : PCfg) (f : HashFns H) (rs : RS)
     (sg : SigScheme H) (s : Sched) (key : MsgKey H) :
     ∀ (ops : List (PUnit H × Bytes)) (p : Proc H), p.finalized.contains key = true →
     ∀ (i : Nat) (u : PUnit H) (sender : Bytes), ops[i]? = some (u, sender) → keyOf u = key →
-      (procRun cfg pc f rs sg s p ops)[i]? = some .ignored
+      (procRunCore cfg pc f rs sg s p ops)[i]? = some .ignored
   | [], _, _, i, _, _, h, _ => by simp at h
   | (u0, s0) :: rest, p, hp, i, u, sender, h, hk => by
-    have hmono : (procStep cfg pc f rs sg s p u0 s0).1.finalized.contains key = true := by
-      unfold procStep
+    have hmono : (procStepCore cfg pc f rs sg s p u0 s0).1.finalized.contains key = true := by
+      unfold procStepCore
       by_cases hc : p.finalized.contains (keyOf u0) = true
       · simp only [hc, if_true]; exact hp
       · simp only [hc, Bool.false_eq_true, if_false]
@@ -741,13 +775,13 @@ theorem finalized_key_ignores_units [DecidableEq H] (cfg : Cfg) (pc : PCfg) (f :
     | zero =>
       simp only [List.getElem?_cons_zero, Option.some.injEq, Prod.mk.injEq] at h
       obtain ⟨rfl, rfl⟩ := h
-      simp only [procRun, List.getElem?_cons_zero, Option.some.injEq]
-      unfold procStep
+      simp only [procRunCore, List.getElem?_cons_zero, Option.some.injEq]
+      unfold procStepCore
       rw [hk, if_pos hp]
     | succ i =>
       simp only [List.getElem?_cons_succ] at h
-      simp only [procRun, List.getElem?_cons_succ]
-      exact finalized_key_ignores_units cfg pc f rs sg s key rest _ hmono i u sender h hk
+      simp only [procRunCore, List.getElem?_cons_succ]
+      exact finalized_key_ignores_units_core cfg pc f rs sg s key rest _ hmono i u sender h hk
 
 
 /-! ### the subprocessor does not panic (with the repairs); the nil dereference (without) -/
@@ -942,12 +976,12 @@ theorem subStep_stage2_no_build [DecidableEq H] (cfg : Cfg) (pc : PCfg) (f : Has
 def Done [DecidableEq H] (p : Proc H) (K : MsgKey H) : Prop :=
   p.finalized.contains K = true ∨ ∃ st, p.findSub K = some st ∧ st.built ≠ none
 
-theorem procStep_build_marks_done [DecidableEq H] (cfg : Cfg) (pc : PCfg) (f : HashFns H) (rs : RS)
+theorem procStepCore_build_marks_done [DecidableEq H] (cfg : Cfg) (pc : PCfg) (f : HashFns H) (rs : RS)
     (sg : SigScheme H) (s : Sched) (p : Proc H) (u : PUnit H) (sender : Bytes)
     (bc : List (PUnit H)) (m : Bytes) (e : Option Bool)
-    (h : (procStep cfg pc f rs sg s p u sender).2 = .handled bc (some m) e) :
-    Done (procStep cfg pc f rs sg s p u sender).1 (keyOf u) := by
-  unfold procStep at h ⊢
+    (h : (procStepCore cfg pc f rs sg s p u sender).2 = .handled bc (some m) e) :
+    Done (procStepCore cfg pc f rs sg s p u sender).1 (keyOf u) := by
+  unfold procStepCore at h ⊢
   by_cases hf : p.finalized.contains (keyOf u) = true
   · rw [if_pos hf] at h; cases h
   · rw [if_neg hf] at h ⊢
@@ -971,12 +1005,12 @@ theorem procStep_build_marks_done [DecidableEq H] (cfg : Cfg) (pc : PCfg) (f : H
         split at h <;> simp at h
       | panic => simp [hss] at h
 
-theorem procStep_done_stable [DecidableEq H] (cfg : Cfg) (pc : PCfg) (f : HashFns H) (rs : RS)
+theorem procStepCore_done_stable [DecidableEq H] (cfg : Cfg) (pc : PCfg) (f : HashFns H) (rs : RS)
     (sg : SigScheme H) (s : Sched) (p : Proc H) (K : MsgKey H) (hd : Done p K) (u : PUnit H)
     (sender : Bytes) :
-    Done (procStep cfg pc f rs sg s p u sender).1 K ∧
-    (keyOf u = K → ∀ bc m e, (procStep cfg pc f rs sg s p u sender).2 ≠ .handled bc (some m) e) := by
-  unfold procStep
+    Done (procStepCore cfg pc f rs sg s p u sender).1 K ∧
+    (keyOf u = K → ∀ bc m e, (procStepCore cfg pc f rs sg s p u sender).2 ≠ .handled bc (some m) e) := by
+  unfold procStepCore
   by_cases hf : p.finalized.contains (keyOf u) = true
   · rw [if_pos hf]
     exact ⟨hd, fun _ bc m e h => by cases h⟩
@@ -1043,6 +1077,270 @@ theorem procStep_done_stable [DecidableEq H] (cfg : Cfg) (pc : PCfg) (f : HashFn
         | panic => exact ⟨hd, fun e => absurd e hk⟩
 
 /-- Over any sequence of units: once a message key is done, no later unit of that key builds. -/
+theorem procRunCore_no_build_after_done [DecidableEq H] (cfg : Cfg) (pc : PCfg) (f : HashFns H) (rs : RS)
+    (sg : SigScheme H) (s : Sched) (K : MsgKey H) :
+    ∀ (ops : List (PUnit H × Bytes)) (p : Proc H), Done p K →
+    ∀ (j : Nat) (u : PUnit H) (sender : Bytes) (bc : List (PUnit H)) (m : Bytes) (e : Option Bool),
+      ops[j]? = some (u, sender) → keyOf u = K →
+      (procRunCore cfg pc f rs sg s p ops)[j]? ≠ some (.handled bc (some m) e)
+  | [], _, _, j, _, _, _, _, _, h, _ => by simp at h
+  | (u0, s0) :: rest, p, hd, 0, u, sender, bc, m, e, h, hk => by
+    simp only [List.getElem?_cons_zero, Option.some.injEq, Prod.mk.injEq] at h
+    obtain ⟨rfl, rfl⟩ := h
+    simp only [procRunCore, List.getElem?_cons_zero, ne_eq, Option.some.injEq]
+    exact (procStepCore_done_stable cfg pc f rs sg s p K hd u0 s0).2 hk bc m e
+  | (u0, s0) :: rest, p, hd, j + 1, u, sender, bc, m, e, h, hk => by
+    simp only [List.getElem?_cons_succ] at h
+    simp only [procRunCore, List.getElem?_cons_succ]
+    exact procRunCore_no_build_after_done cfg pc f rs sg s K rest _
+      (procStepCore_done_stable cfg pc f rs sg s p K hd u0 s0).1 j u sender bc m e h hk
+
+/-- "Reconstruct exactly once": over ANY sequence of units from ANY state, two different steps
+never both build the message of the same key. -/
+theorem procRunCore_builds_at_most_once [DecidableEq H] (cfg : Cfg) (pc : PCfg) (f : HashFns H) (rs : RS)
+    (sg : SigScheme H) (s : Sched) :
+    ∀ (ops : List (PUnit H × Bytes)) (p : Proc H) (i j : Nat), i < j →
+    ∀ (ui uj : PUnit H) (si sj : Bytes) (bi bj : List (PUnit H)) (mi mj : Bytes) (ei ej : Option Bool),
+      ops[i]? = some (ui, si) → ops[j]? = some (uj, sj) → keyOf ui = keyOf uj →
+      (procRunCore cfg pc f rs sg s p ops)[i]? = some (.handled bi (some mi) ei) →
+      (procRunCore cfg pc f rs sg s p ops)[j]? ≠ some (.handled bj (some mj) ej)
+  | [], _, i, j, _, _, _, _, _, _, _, _, _, _, _, h, _, _, _ => by simp at h
+  | (u0, s0) :: rest, p, 0, j + 1, _, ui, uj, si, sj, bi, bj, mi, mj, ei, ej, hi, hj, hk, hbi => by
+    simp only [List.getElem?_cons_zero, Option.some.injEq, Prod.mk.injEq] at hi
+    obtain ⟨rfl, rfl⟩ := hi
+    simp only [List.getElem?_cons_succ] at hj
+    simp only [procRunCore, List.getElem?_cons_zero, Option.some.injEq] at hbi
+    simp only [procRunCore, List.getElem?_cons_succ]
+    exact procRunCore_no_build_after_done cfg pc f rs sg s (keyOf u0) rest _
+      (procStepCore_build_marks_done cfg pc f rs sg s p u0 s0 bi mi ei hbi) j uj sj bj mj ej hj hk.symm
+  | (u0, s0) :: rest, p, i + 1, j + 1, hij, ui, uj, si, sj, bi, bj, mi, mj, ei, ej, hi, hj, hk, hbi => by
+    simp only [List.getElem?_cons_succ] at hi hj
+    simp only [procRunCore, List.getElem?_cons_succ] at hbi ⊢
+    exact procRunCore_builds_at_most_once cfg pc f rs sg s rest _ i j (by omega) ui uj si sj bi bj mi mj ei ej
+      hi hj hk hbi
+
+
+/-! ### `procStep` = `procStepCore` + the public-key check of `NewValidator` -/
+
+theorem procStep_keyless [DecidableEq H] (cfg : Cfg) (pc : PCfg) (f : HashFns H) (rs : RS)
+    (sg : SigScheme H) (s : Sched) (p : Proc H) (u : PUnit H) (sender : Bytes)
+    (h : keylessNew sg s p u = true) :
+    procStep cfg pc f rs sg s p u sender = (p, if pc.keyGuard then .noRoute else .panic) := by
+  unfold procStep; rw [if_pos h]
+
+theorem procStep_keyed [DecidableEq H] (cfg : Cfg) (pc : PCfg) (f : HashFns H) (rs : RS)
+    (sg : SigScheme H) (s : Sched) (p : Proc H) (u : PUnit H) (sender : Bytes)
+    (h : keylessNew sg s p u = false) :
+    procStep cfg pc f rs sg s p u sender = procStepCore cfg pc f rs sg s p u sender := by
+  unfold procStep; rw [if_neg (by rw [h]; simp)]
+
+theorem keylessNew_congr [DecidableEq H] (sg : SigScheme H) (s : Sched) (p p' : Proc H) (u : PUnit H)
+    (h : ProcEq s p p') : keylessNew sg s p u = keylessNew sg s p' u := by
+  unfold keylessNew; rw [h.1 (keyOf u), h.2 (keyOf u)]
+
+theorem procStep_inv [DecidableEq H] (cfg : Cfg) (pc : PCfg) (f : HashFns H) (rs : RS)
+    (sg : SigScheme H) (s : Sched) (p : Proc H) (u : PUnit H) (sender : Bytes)
+    (hp : ProcInv s p) : ProcInv s (procStep cfg pc f rs sg s p u sender).1 := by
+  cases hk : keylessNew sg s p u with
+  | true => rw [procStep_keyless cfg pc f rs sg s p u sender hk]; exact hp
+  | false => rw [procStep_keyed cfg pc f rs sg s p u sender hk]; exact procStepCore_inv cfg pc f rs sg s p u sender hp
+
+theorem procStep_not_handled_of_keyless [DecidableEq H] (cfg : Cfg) (pc : PCfg) (f : HashFns H) (rs : RS)
+    (sg : SigScheme H) (s : Sched) (p : Proc H) (u : PUnit H) (sender : Bytes)
+    (hk : keylessNew sg s p u = true) (bc : List (PUnit H)) (b : Option Bytes) (e : Option Bool) :
+    (procStep cfg pc f rs sg s p u sender).2 ≠ .handled bc b e := by
+  rw [procStep_keyless cfg pc f rs sg s p u sender hk]
+  simp only
+  split <;> intro h <;> cases h
+
+theorem procStep_built_sound [DecidableEq H] (cfg : Cfg) (pc : PCfg) (f : HashFns H) (hI : Ideal f)
+    (rs : RS) (sg : SigScheme H) (s : Sched) (p : Proc H) (hp : ProcInv s p) (u : PUnit H)
+    (sender : Bytes) (msg : Bytes) (hl : RSLaws rs s.k s.c) (hin : PadInput msg s.k)
+    (hsz : GoSized rs msg s.k s.c) (hroot : u.root = (treeOf cfg f rs msg s.k s.c).1)
+    (bc : List (PUnit H)) (m : Bytes) (e : Option Bool)
+    (h : (procStep cfg pc f rs sg s p u sender).2 = .handled bc (some m) e) :
+    m = msg ∧ ∃ li, s.shardIndexFor u.publisher = .ok li ∧
+      ∀ lu ∈ bc, lu = u ∨ (lu.shards = [(encOf rs msg s.k s.c).getD li []] ∧
+        lu.proof = (treeOf cfg f rs msg s.k s.c).2.getD li [] ∧ lu.index = li ∧ keyOf lu = keyOf u) := by
+  cases hk : keylessNew sg s p u with
+  | true => exact absurd h (procStep_not_handled_of_keyless cfg pc f rs sg s p u sender hk _ _ _)
+  | false =>
+    rw [procStep_keyed cfg pc f rs sg s p u sender hk] at h
+    exact procStepCore_built_sound cfg pc f hI rs sg s p hp u sender msg hl hin hsz hroot bc m e h
+
+theorem procStep_congr [DecidableEq H] (cfg : Cfg) (pc : PCfg) (f : HashFns H) (rs : RS)
+    (sg : SigScheme H) (s : Sched) (p p' : Proc H) (u : PUnit H) (sender : Bytes)
+    (h : ProcEq s p p') :
+    (procStep cfg pc f rs sg s p u sender).2 = (procStep cfg pc f rs sg s p' u sender).2 ∧
+    ProcEq s (procStep cfg pc f rs sg s p u sender).1 (procStep cfg pc f rs sg s p' u sender).1 := by
+  have hkc := keylessNew_congr sg s p p' u h
+  cases hk : keylessNew sg s p u with
+  | true =>
+    rw [procStep_keyless cfg pc f rs sg s p u sender hk,
+      procStep_keyless cfg pc f rs sg s p' u sender (by rw [← hkc]; exact hk)]
+    exact ⟨rfl, h⟩
+  | false =>
+    rw [procStep_keyed cfg pc f rs sg s p u sender hk,
+      procStep_keyed cfg pc f rs sg s p' u sender (by rw [← hkc]; exact hk)]
+    exact procStepCore_congr cfg pc f rs sg s p p' u sender h
+
+/-- Outcomes of a sequence of `(unit, sender)` pairs handed to the processor. -/
+def procRun [DecidableEq H] (cfg : Cfg) (pc : PCfg) (f : HashFns H) (rs : RS) (sg : SigScheme H)
+    (s : Sched) : Proc H → List (PUnit H × Bytes) → List (ProcOut H)
+  | _, [] => []
+  | p, (u, sender) :: rest =>
+    (procStep cfg pc f rs sg s p u sender).2 ::
+      procRun cfg pc f rs sg s (procStep cfg pc f rs sg s p u sender).1 rest
+
+theorem procRun_congr [DecidableEq H] (cfg : Cfg) (pc : PCfg) (f : HashFns H) (rs : RS)
+    (sg : SigScheme H) (s : Sched) : ∀ (ops : List (PUnit H × Bytes)) (p p' : Proc H), ProcEq s p p' →
+    procRun cfg pc f rs sg s p ops = procRun cfg pc f rs sg s p' ops
+  | [], _, _, _ => rfl
+  | (u, sender) :: rest, p, p', h => by
+    obtain ⟨h1, h2⟩ := procStep_congr cfg pc f rs sg s p p' u sender h
+    simp only [procRun, h1, procRun_congr cfg pc f rs sg s rest _ _ h2]
+
+theorem procRun_built_sound [DecidableEq H] (cfg : Cfg) (pc : PCfg) (f : HashFns H) (hI : Ideal f)
+    (rs : RS) (sg : SigScheme H) (s : Sched) (msg : Bytes) (hl : RSLaws rs s.k s.c)
+    (hin : PadInput msg s.k) (hsz : GoSized rs msg s.k s.c) :
+    ∀ (ops : List (PUnit H × Bytes)) (p : Proc H), ProcInv s p →
+    ∀ (i : Nat) (u : PUnit H) (sender : Bytes) (bc : List (PUnit H)) (m : Bytes) (e : Option Bool),
+      ops[i]? = some (u, sender) → u.root = (treeOf cfg f rs msg s.k s.c).1 →
+      (procRun cfg pc f rs sg s p ops)[i]? = some (.handled bc (some m) e) → m = msg
+  | [], _, _, i, _, _, _, _, _, h, _, _ => by simp at h
+  | (u0, s0) :: rest, p, hp, 0, u, sender, bc, m, e, h, hr, hv => by
+    simp only [List.getElem?_cons_zero, Option.some.injEq, Prod.mk.injEq] at h
+    obtain ⟨rfl, rfl⟩ := h
+    simp only [procRun, List.getElem?_cons_zero, Option.some.injEq] at hv
+    exact (procStep_built_sound cfg pc f hI rs sg s p hp u0 s0 msg hl hin hsz hr bc m e hv).1
+  | (u0, s0) :: rest, p, hp, i + 1, u, sender, bc, m, e, h, hr, hv => by
+    simp only [List.getElem?_cons_succ] at h
+    simp only [procRun, List.getElem?_cons_succ] at hv
+    exact procRun_built_sound cfg pc f hI rs sg s msg hl hin hsz rest _
+      (procStep_inv cfg pc f rs sg s p u0 s0 hp) i u sender bc m e h hr hv
+
+/-- With the repair (`noPoison`): a unit that the validator of its message key rejects changes
+nothing that any later step can observe. (If the unit would start a subprocessor for a publisher
+without embedded key, `keyGuard` is needed for it not to panic.) -/
+theorem rejected_unit_is_noop [DecidableEq H] (cfg : Cfg) (pc : PCfg) (hfix : pc.noPoison = true)
+    (f : HashFns H) (rs : RS) (sg : SigScheme H) (s : Sched) (p : Proc H) (hp : ProcInv s p)
+    (u : PUnit H) (sender : Bytes) (e : VErr)
+    (hkey : pc.keyGuard = true ∨ sg.hasKey (keyOf u).publisher = true)
+    (hrej : validate cfg f sg s (keyOf u).publisher
+      ((p.findSub (keyOf u)).getD (SubState.fresh s.total)).v u sender = .error e) :
+    (∀ bc b en, (procStep cfg pc f rs sg s p u sender).2 = .handled bc b en → bc = [] ∧ b = none) ∧
+    (procStep cfg pc f rs sg s p u sender).2 ≠ .panic ∧
+    ∀ ops, procRun cfg pc f rs sg s (procStep cfg pc f rs sg s p u sender).1 ops =
+      procRun cfg pc f rs sg s p ops := by
+  cases hk : keylessNew sg s p u with
+  | true =>
+    have hg : pc.keyGuard = true := by
+      cases hkey with
+      | inl h => exact h
+      | inr h => unfold keylessNew at hk; simp [h] at hk
+    rw [procStep_keyless cfg pc f rs sg s p u sender hk]
+    simp only [hg, if_true]
+    exact ⟨(fun bc b en h => by cases h), (fun h => by cases h), (fun _ => trivial)⟩
+  | false =>
+    rw [procStep_keyed cfg pc f rs sg s p u sender hk]
+    obtain ⟨hout, heq⟩ := rejected_step_core cfg pc hfix f rs sg s p hp u sender e hrej
+    refine ⟨?_, ?_, fun ops => procRun_congr cfg pc f rs sg s ops _ _ heq⟩
+    · intro bc b en h
+      rcases hout with h1 | h1 | ⟨en', h1⟩
+      · rw [h1] at h; cases h
+      · rw [h1] at h; cases h
+      · rw [h1] at h; injection h with a b' _; exact ⟨a.symm, b'.symm⟩
+    · intro h
+      rcases hout with h1 | h1 | ⟨en', h1⟩ <;> rw [h1] at h <;> cases h
+
+theorem procStep_finalized_mono [DecidableEq H] (cfg : Cfg) (pc : PCfg) (f : HashFns H) (rs : RS)
+    (sg : SigScheme H) (s : Sched) (key : MsgKey H) (p : Proc H) (u : PUnit H) (sender : Bytes)
+    (hp : p.finalized.contains key = true) :
+    (procStep cfg pc f rs sg s p u sender).1.finalized.contains key = true := by
+  cases hk : keylessNew sg s p u with
+  | true => rw [procStep_keyless cfg pc f rs sg s p u sender hk]; exact hp
+  | false =>
+    rw [procStep_keyed cfg pc f rs sg s p u sender hk]
+    unfold procStepCore
+    by_cases hc : p.finalized.contains (keyOf u) = true
+    · simp only [hc, if_true]; exact hp
+    · simp only [hc, Bool.false_eq_true, if_false]
+      cases s.shardIndexFor (keyOf u).publisher with
+      | error e => exact hp
+      | ok li =>
+        simp only
+        have hcons : (keyOf u :: p.finalized).contains key = true := by
+          simp only [List.contains_cons, hp, Bool.or_true]
+        cases subStep cfg pc f rs sg s (keyOf u).publisher li
+            ((p.findSub (keyOf u)).getD (SubState.fresh s.total)) u sender with
+        | running st' bc b => exact hp
+        | finished e bc b => exact hcons
+        | firstInvalid =>
+          simp only
+          split
+          · exact hp
+          · exact hcons
+        | panic => exact hp
+
+theorem finalized_key_ignores_units [DecidableEq H] (cfg : Cfg) (pc : PCfg) (f : HashFns H) (rs : RS)
+    (sg : SigScheme H) (s : Sched) (key : MsgKey H) :
+    ∀ (ops : List (PUnit H × Bytes)) (p : Proc H), p.finalized.contains key = true →
+    ∀ (i : Nat) (u : PUnit H) (sender : Bytes), ops[i]? = some (u, sender) → keyOf u = key →
+      (procRun cfg pc f rs sg s p ops)[i]? = some .ignored
+  | [], _, _, i, _, _, h, _ => by simp at h
+  | (u0, s0) :: rest, p, hp, i, u, sender, h, hk => by
+    cases i with
+    | zero =>
+      simp only [List.getElem?_cons_zero, Option.some.injEq, Prod.mk.injEq] at h
+      obtain ⟨rfl, rfl⟩ := h
+      simp only [procRun, List.getElem?_cons_zero, Option.some.injEq]
+      have hkl : keylessNew sg s p u0 = false := by
+        unfold keylessNew; rw [hk, hp]; simp
+      rw [procStep_keyed cfg pc f rs sg s p u0 s0 hkl]
+      unfold procStepCore
+      rw [hk, if_pos hp]
+    | succ i =>
+      simp only [List.getElem?_cons_succ] at h
+      simp only [procRun, List.getElem?_cons_succ]
+      exact finalized_key_ignores_units cfg pc f rs sg s key rest _
+        (procStep_finalized_mono cfg pc f rs sg s key p u0 s0 hp) i u sender h hk
+
+theorem first_invalid_unit_poisons_key [DecidableEq H] (cfg : Cfg) (pc : PCfg) (hpin : pc.noPoison = false)
+    (f : HashFns H) (rs : RS) (sg : SigScheme H) (s : Sched) (p : Proc H) (u : PUnit H) (sender : Bytes)
+    (e : VErr) (li : Nat) (hnew : p.findSub (keyOf u) = none)
+    (hnf : p.finalized.contains (keyOf u) = false)
+    (hsi : s.shardIndexFor (keyOf u).publisher = .ok li)
+    (hkey : sg.hasKey (keyOf u).publisher = true)
+    (hrej : validate cfg f sg s (keyOf u).publisher VState.fresh u sender = .error e) :
+    (procStep cfg pc f rs sg s p u sender).1.finalized.contains (keyOf u) = true := by
+  have hkl : keylessNew sg s p u = false := by unfold keylessNew; simp [hkey]
+  rw [procStep_keyed cfg pc f rs sg s p u sender hkl]
+  exact first_invalid_unit_poisons_key_core cfg pc hpin f rs sg s p u sender e li hnew hnf hsi hrej
+
+theorem procStep_build_marks_done [DecidableEq H] (cfg : Cfg) (pc : PCfg) (f : HashFns H) (rs : RS)
+    (sg : SigScheme H) (s : Sched) (p : Proc H) (u : PUnit H) (sender : Bytes)
+    (bc : List (PUnit H)) (m : Bytes) (e : Option Bool)
+    (h : (procStep cfg pc f rs sg s p u sender).2 = .handled bc (some m) e) :
+    Done (procStep cfg pc f rs sg s p u sender).1 (keyOf u) := by
+  cases hk : keylessNew sg s p u with
+  | true => exact absurd h (procStep_not_handled_of_keyless cfg pc f rs sg s p u sender hk _ _ _)
+  | false =>
+    rw [procStep_keyed cfg pc f rs sg s p u sender hk] at h ⊢
+    exact procStepCore_build_marks_done cfg pc f rs sg s p u sender bc m e h
+
+theorem procStep_done_stable [DecidableEq H] (cfg : Cfg) (pc : PCfg) (f : HashFns H) (rs : RS)
+    (sg : SigScheme H) (s : Sched) (p : Proc H) (K : MsgKey H) (hd : Done p K) (u : PUnit H)
+    (sender : Bytes) :
+    Done (procStep cfg pc f rs sg s p u sender).1 K ∧
+    (keyOf u = K → ∀ bc m e, (procStep cfg pc f rs sg s p u sender).2 ≠ .handled bc (some m) e) := by
+  cases hk : keylessNew sg s p u with
+  | true =>
+    refine ⟨by rw [procStep_keyless cfg pc f rs sg s p u sender hk]; exact hd, fun _ bc m e => ?_⟩
+    exact procStep_not_handled_of_keyless cfg pc f rs sg s p u sender hk _ _ _
+  | false =>
+    rw [procStep_keyed cfg pc f rs sg s p u sender hk]
+    exact procStepCore_done_stable cfg pc f rs sg s p K hd u sender
+
 theorem procRun_no_build_after_done [DecidableEq H] (cfg : Cfg) (pc : PCfg) (f : HashFns H) (rs : RS)
     (sg : SigScheme H) (s : Sched) (K : MsgKey H) :
     ∀ (ops : List (PUnit H × Bytes)) (p : Proc H), Done p K →
@@ -1061,8 +1359,6 @@ theorem procRun_no_build_after_done [DecidableEq H] (cfg : Cfg) (pc : PCfg) (f :
     exact procRun_no_build_after_done cfg pc f rs sg s K rest _
       (procStep_done_stable cfg pc f rs sg s p K hd u0 s0).1 j u sender bc m e h hk
 
-/-- "Reconstruct exactly once": over ANY sequence of units from ANY state, two different steps
-never both build the message of the same key. -/
 theorem procRun_builds_at_most_once [DecidableEq H] (cfg : Cfg) (pc : PCfg) (f : HashFns H) (rs : RS)
     (sg : SigScheme H) (s : Sched) :
     ∀ (ops : List (PUnit H × Bytes)) (p : Proc H) (i j : Nat), i < j →
@@ -1084,5 +1380,75 @@ theorem procRun_builds_at_most_once [DecidableEq H] (cfg : Cfg) (pc : PCfg) (f :
     simp only [procRun, List.getElem?_cons_succ] at hbi ⊢
     exact procRun_builds_at_most_once cfg pc f rs sg s rest _ i j (by omega) ui uj si sj bi bj mi mj ei ej
       hi hj hk hbi
+
+/-! ### no unit makes the processor panic (all guards); the keyless publisher (without) -/
+
+/-- Every path of one processor step, with all repairs in place and a scheduler `NewScheduler`
+made: no panic, whatever the unit, the sender and the (reachable) state. -/
+theorem procStep_total [DecidableEq H] (cfg : Cfg) (pc : PCfg) (f : HashFns H) (rs : RS)
+    (sg : SigScheme H) (id : Bytes) (nodes : List Bytes) (s : Sched) (hs : newScheduler id nodes = .ok s)
+    (p : Proc H) (hp : ProcInv s p) (u : PUnit H) (sender : Bytes)
+    (h1 : cfg.rootFromPresent = true) (h2 : cfg.unpadGuard = true) (h3 : pc.localFromPresent = true)
+    (h4 : pc.keyGuard = true) (hl : RSLaws rs s.k s.c) :
+    (procStep cfg pc f rs sg s p u sender).2 ≠ .panic := by
+  obtain ⟨_, _, _, _, _, hlen, hk1, _, hid, hloc, hmem⟩ := newScheduler_spec id nodes s hs
+  cases hk : keylessNew sg s p u with
+  | true =>
+    rw [procStep_keyless cfg pc f rs sg s p u sender hk]
+    simp [h4]
+  | false =>
+    rw [procStep_keyed cfg pc f rs sg s p u sender hk]
+    unfold procStepCore
+    by_cases hc : p.finalized.contains (keyOf u) = true
+    · rw [if_pos hc]; intro h; cases h
+    · rw [if_neg hc]
+      cases hsi : s.shardIndexFor (keyOf u).publisher with
+      | error e => intro h; cases h
+      | ok li =>
+        simp only
+        -- the local shard index is in range
+        have hli : li < s.total := by
+          unfold Sched.shardIndexFor at hsi
+          by_cases he : s.localId = (keyOf u).publisher
+          · simp [he] at hsi
+          · simp only [he, if_false] at hsi
+            cases hpi : s.peers.idxOf? (keyOf u).publisher with
+            | none => simp [hpi] at hsi
+            | some pi =>
+              simp only [hpi] at hsi
+              injection hsi with hsi
+              obtain ⟨hpilt, hpiget, _⟩ := List.idxOf?_eq_some_iff.mp hpi
+              have hloc' : s.peers.idxOf? s.localId = some s.localIdx := by rw [hid]; exact hloc
+              obtain ⟨hll, hlget, _⟩ := List.idxOf?_eq_some_iff.mp hloc'
+              have hne : s.localIdx ≠ pi := by
+                intro e; subst e; rw [hlget] at hpiget; exact he hpiget
+              rw [← hsi]; split <;> omega
+        have hst : UnitsInv s (keyOf u) ((p.findSub (keyOf u)).getD (SubState.fresh s.total)) := by
+          cases hfs : p.findSub (keyOf u) with
+          | none => exact unitsInv_fresh s _
+          | some st0 => obtain ⟨a, b, _⟩ := hp _ _ hfs; exact ⟨a, b⟩
+        have := subStep_total cfg pc f rs sg s (keyOf u) li _ u sender h1 h2 h3 hl (by omega) hli hst rfl
+        cases hss : subStep cfg pc f rs sg s (keyOf u).publisher li
+            ((p.findSub (keyOf u)).getD (SubState.fresh s.total)) u sender with
+        | running st' bc b => intro h; cases h
+        | finished e bc b => intro h; cases h
+        | firstInvalid => simp only; split <;> (intro h; cases h)
+        | panic => exact absurd hss this
+
+/-- Without `keyGuard` (the code in /repo): ANY unit that names as publisher a committee member
+whose peer id does not embed a public key, for a message key the node has not seen, panics the
+processor (in the goroutine of the new subprocessor: the node dies). Nothing else about the unit
+matters — shards, proof, signature, sender are never looked at. -/
+theorem procStep_panics_on_keyless_publisher [DecidableEq H] (cfg : Cfg) (pc : PCfg)
+    (hpin : pc.keyGuard = false) (f : HashFns H) (rs : RS) (sg : SigScheme H) (s : Sched) (p : Proc H)
+    (u : PUnit H) (sender : Bytes) (li : Nat)
+    (hnf : p.finalized.contains (keyOf u) = false) (hnew : p.findSub (keyOf u) = none)
+    (hsi : s.shardIndexFor (keyOf u).publisher = .ok li)
+    (hkey : sg.hasKey (keyOf u).publisher = false) :
+    (procStep cfg pc f rs sg s p u sender).2 = .panic := by
+  have hk : keylessNew sg s p u = true := by
+    unfold keylessNew; rw [hnf, hsi, hnew, hkey]; rfl
+  rw [procStep_keyless cfg pc f rs sg s p u sender hk]
+  simp only [hpin, Bool.false_eq_true, if_false]
 
 end Juno.C19
